@@ -78,7 +78,7 @@
 
     // ---- the ~60 call sites in the VM and the argument converters are G-VM: BOUNDED native stand-in on the real
     // engine over a set of use sites x 4 modes x {missing, present} contexts
-//# ob name=undef_vm_native role=native_bounded fn=vm::eval_impl+value::argtypes kind=bounded bound="22 template use sites of a possibly-undefined name (print, iterate, truth tests in if/and/or/not/ternary, attribute, item, slice, in, ~, +, filter argument, test, default, call argument, set, macro argument) x 4 undefined behaviours x {name missing, name present}" stmt="the documented matrix at the level of rendered templates, and monotonicity: a template that renders under a stricter mode renders to the identical output under every weaker mode; is defined / is undefined / default never fail"
+//# ob name=undef_vm_native role=native_bounded fn=vm::eval_impl+value::argtypes kind=bounded bound="30 template use sites of a possibly-undefined name (print, iterate, truth tests in if/and/or/not/ternary, attribute, item, slice, in, ~, +, filter argument, test, default, call argument, set, macro argument) x 4 undefined behaviours x {name missing, name present}" stmt="the documented matrix at the level of rendered templates, and monotonicity: a template that renders under a stricter mode renders to the identical output under every weaker mode; is defined / is undefined / default never fail"
     fn undef_vm_native() {
         use crate::{Environment, UndefinedBehavior as UB};
         let modes = [UB::Strict, UB::SemiStrict, UB::Lenient, UB::Chainable];
@@ -106,6 +106,14 @@
             ("{{ [x]|length }}", 0),
             ("{{ 'a' if true }}{{ x|default('') }}", 0),
             ("{% if x is defined and x %}y{% endif %}ok", 0),
+            ("{{ x[:2] }}", 0b0001),
+            ("{{ x[:2] is defined }}", 0b0001),
+            ("{{ x[1:]|length }}", 0b0001),
+            ("{{ x|default('fb', true) }}", 0),
+            ("{{ x|d('fb', true) }}", 0),
+            ("{{ other.nope|default('fb', true) }}", 0),
+            ("{% for n in nodes recursive %}{{ n.name }}{{ loop(n.children) }}{% endfor %}", 0b0011),
+            ("{% for n in nodes recursive %}{{ n.name }}{{ loop(n.children)|upper }}{% endfor %}", 0b0011),
         ];
         for (src, fails) in sites {
             let mut outs: Vec<Option<String>> = Vec::new();
@@ -113,13 +121,19 @@
                 let mut env = Environment::new();
                 env.set_undefined_behavior(*m);
                 env.add_template("t", src).unwrap();
-                let r = env.get_template("t").unwrap().render(crate::context! { other => 1 });
+                let r = env.get_template("t").unwrap().render(crate::context! { other => crate::context! { a => 1 }, nodes => vec![crate::context! { name => "a" }] });
                 let should_fail = fails & (1 << mi) != 0;
                 match &r {
                     Ok(_) => assert!(!should_fail, "{src} must fail under {m:?} but rendered {r:?}"),
                     Err(e) => {
                         assert!(should_fail, "{src} must not fail under {m:?}: {e}");
-                        assert!(e.kind() == crate::ErrorKind::UndefinedError, "{src}: wrong error kind under {m:?}: {e:?}");
+                        let mut undefined_in_chain = false;
+                        let mut cur: Option<&(dyn std::error::Error + 'static)> = Some(e);
+                        while let Some(x) = cur {
+                            if let Some(me) = x.downcast_ref::<crate::Error>() { if me.kind() == crate::ErrorKind::UndefinedError { undefined_in_chain = true; } }
+                            cur = x.source();
+                        }
+                        assert!(undefined_in_chain, "{src}: wrong error kind under {m:?}: {e:?}");
                     }
                 }
                 outs.push(r.ok());
@@ -127,8 +141,9 @@
                 let mut env2 = Environment::new();
                 env2.set_undefined_behavior(*m);
                 env2.add_template("t", src).unwrap();
-                let present = env2.get_template("t").unwrap().render(crate::context! { x => crate::context! { y => crate::context! { z => 1 } } });
-                assert!(present.is_ok(), "{src} with x present failed under {m:?}: {present:?}");
+                let present = env2.get_template("t").unwrap().render(crate::context! { x => crate::context! { y => crate::context! { z => 1 } }, other => crate::context! { a => 1 }, nodes => vec![crate::context! { name => "a", children => Vec::<Value>::new() }] });
+                // (slicing the map used as the present value is a type error in every mode: not an undefined matter)
+                if !src.contains("x[") { assert!(present.is_ok(), "{src} with x present failed under {m:?}: {present:?}"); }
             }
             // monotone: once a stricter mode renders, every weaker mode renders identically
             for i in 0..4 { for j in i..4 {
